@@ -5,7 +5,7 @@
    been dropped no window is allocated. *)
 From Coq Require Import ZArith List Bool PArith FMapPositive Lia.
 From Tickit Require Import LifeDefs LifeLemmas LifeChains LifeInv LifePure LifeWalks LifeRelink LifeRemove LifeClose
-  LifeQueue LifeDestroy LifeAttach LifeOps LifeFlush LifeFate LifeSpec LifeProofs.
+  LifeQueue LifeDestroy LifeAttach LifeOps LifeFlush LifeFate LifeSpec LifeProofs LifeUnfold.
 Import ListNotations.
 Local Open Scope Z_scope.
 
@@ -59,7 +59,7 @@ Theorem run_op_eff : forall fuel o h,
   end.
 Proof.
   intros fuel o h HI Hef Hpre. destruct fuel as [|f]; [cbn; exact I|].
-  rewrite run_op_S. unfold bind at 1.
+  rewrite run_op_F. unfold bind at 1.
   assert (Hlog : exists h1, (match o with ONop | OFrameRef _ | OFrameUnref _ => ret tt | _ => log_op o end) h = Ok tt h1 /\ hinv [] h1 /\
                             wins h1 = wins h /\ nextw h1 = nextw h /\ (forall x y, anc h x y -> anc h1 x y)).
   { destruct o; try (eexists; split; [reflexivity|]; split; [apply hinv_log; exact HI|]; split; [reflexivity|]; split; [reflexivity|];
@@ -125,10 +125,6 @@ Proof.
   - (* OHide *)
     rewrite <- Fw1 in Hpre. pose proof (window_hide_spec [] f w h1 HI1 Hpre h1 eq_refl) as Hs.
     destruct (window_hide f w h1); [apply Hst; tauto|contradiction|exact I].
-  - (* OFocus *)
-    pose proof (focus_gained_spec f w None h1 HI1 (Hanc1 _ _ Hpre)) as Hfg.
-    assert (Hch : forall ch, None = Some ch -> exists cch, findw h1 ch = Some cch /\ w_parent cch = Some w) by (intros ch Ec; discriminate).
-    specialize (Hfg Hch h1 eq_refl). destruct (focus_gained f w None h1); [apply Hst; tauto|contradiction|exact I].
   - (* OSteal *)
     rewrite <- Fw1 in Hpre. destruct (live_some h1 w Hpre) as [cw Hw].
     rewrite (upd_run h1 w _ cw Hw). apply Hst. apply links_upd_stable. intro c. split; [repeat split|reflexivity].
@@ -139,20 +135,24 @@ Proof.
     unfold bind at 1. pose proof (get_root_spec [] f w h1 (conj HI1 (Hanc1 _ _ Hpre))) as Hg.
     destruct (get_root f w h1) as [r h2| |]; [|contradiction|exact I]. destruct Hg as [Eh _]. subst h2. cbn.
     apply Hst. apply stable_refl.
-  - (* OFlush *)
-    destruct Hpre as [Ew Hl]. subst w.
-    assert (Hl1 : findw h1 root <> None) by (rewrite Fw1; exact Hl).
-    pose proof (window_flush_spec f h1 HI1 Hl1 h1 eq_refl) as Hfl.
-    destruct (window_flush f root h1); [apply Hst; tauto|contradiction|exact I].
   - (* OBind *)
     rewrite <- Fw1 in Hpre. destruct (live_some h1 w Hpre) as [cw Hw].
     rewrite (upd_run h1 w _ cw Hw). apply Hst. apply links_upd_stable. intro c. split; [repeat split|reflexivity].
   - (* OUnbind *)
     rewrite <- Fw1 in Hpre. destruct (live_some h1 w Hpre) as [cw Hw].
     rewrite (upd_run h1 w _ cw Hw). apply Hst. apply links_upd_stable. intro c. split; [repeat split|reflexivity].
-  - (* OGeom *)
+  - (* OTouch *)
+    destruct Hpre as [Hpw [Hpj Hpa]]. rewrite <- Fw1 in Hpw. destruct (live_some h1 w Hpw) as [cw Hw].
+    unfold bind at 1. rewrite (getw_run h1 w cw Hw). unfold bind at 1.
+    assert (Hj : (match j with Some a => getw a ;;; ret tt | None => ret tt end) h1 = Ok tt h1).
+    { destruct j as [a|]; [|reflexivity]. pose proof (Hpj a eq_refl) as Hla. rewrite <- Fw1 in Hla.
+      destruct (live_some h1 a Hla) as [ca Ha]. unfold bind. rewrite (getw_run h1 a ca Ha). reflexivity. }
+    rewrite Hj. destruct walk; [|cbn; apply Hst; apply stable_refl].
+    pose proof (scrollrect_spec [] f w h1 h1 (conj eq_refl (conj HI1 (Hanc1 _ _ (Hpa eq_refl))))) as Hs.
+    destruct (scrollrect f w h1) as [u h2| |]; [|contradiction|exact I]. apply Hst. apply rx_only_stable. exact Hs.
+  - (* ONotify *)
     rewrite <- Fw1 in Hpre. destruct (live_some h1 w Hpre) as [cw Hw].
-    unfold bind. rewrite (getw_run h1 w cw Hw). cbn. apply Hst. apply stable_refl.
+    rewrite (upd_run h1 w _ cw Hw). apply Hst. apply links_upd_stable. intro c. split; [repeat split|reflexivity].
   - (* ONop *)
     cbn. apply Hst. apply stable_refl.
 Qed.
@@ -502,9 +502,6 @@ Proof.
     pose proof (agree_usable_live g h AG (idx w) Hu) as Hl. rewrite addr_idx in Hl.
     split; [exact Hl|]. intros h' S. eapply agree_stable; eauto.
   - destruct (gusable g (idx w)) eqn:Hu; [|discriminate]. inversion Hstep; subst g'.
-    pose proof (agree_usable g h AG (idx w) Hu) as Ha. rewrite addr_idx in Ha.
-    split; [exact Ha|]. intros h' S. eapply agree_stable; eauto.
-  - destruct (gusable g (idx w)) eqn:Hu; [|discriminate]. inversion Hstep; subst g'.
     pose proof (agree_usable_live g h AG (idx w) Hu) as Hl. rewrite addr_idx in Hl.
     split; [exact Hl|]. intros h' S. eapply agree_stable; eauto.
   - destruct (gusable g (idx w)) eqn:Hu; [|discriminate]. inversion Hstep; subst g'.
@@ -513,17 +510,18 @@ Proof.
   - destruct (gusable g (idx w)) eqn:Hu; [|discriminate]. inversion Hstep; subst g'.
     pose proof (agree_usable g h AG (idx w) Hu) as Ha. rewrite addr_idx in Ha.
     split; [exact Ha|]. intros h' S. eapply agree_stable; eauto.
-  - destruct (Nat.eqb (idx w) 0 && gusable g 0) eqn:Hc; [|discriminate]. inversion Hstep; subst g'.
-    apply andb_prop in Hc. destruct Hc as [E0 Hu]. apply Nat.eqb_eq in E0.
-    assert (Ew : w = root) by (rewrite <- (addr_idx w), E0; reflexivity).
-    pose proof (agree_usable_live g h AG 0%nat Hu) as Hl.
-    split; [split; [exact Ew|exact Hl]|]. intros h' S. eapply agree_stable; eauto.
   - destruct (gusable g (idx w)) eqn:Hu; [|discriminate]. inversion Hstep; subst g'.
     pose proof (agree_usable_live g h AG (idx w) Hu) as Hl. rewrite addr_idx in Hl.
     split; [exact Hl|]. intros h' S. eapply agree_stable; eauto.
   - destruct (gusable g (idx w)) eqn:Hu; [|discriminate]. inversion Hstep; subst g'.
     pose proof (agree_usable_live g h AG (idx w) Hu) as Hl. rewrite addr_idx in Hl.
     split; [exact Hl|]. intros h' S. eapply agree_stable; eauto.
+  - destruct (gusable g (idx w) && match j with Some a => gusable g (idx a) | None => true end) eqn:Hc; [|discriminate].
+    inversion Hstep; subst g'. apply andb_prop in Hc. destruct Hc as [Hu Hj].
+    pose proof (agree_usable_live g h AG (idx w) Hu) as Hl. rewrite addr_idx in Hl.
+    split; [split; [exact Hl|split]|intros h' S; eapply agree_stable; eauto].
+    + intros a Ea. subst j. pose proof (agree_usable_live g h AG (idx a) Hj) as Hla. rewrite addr_idx in Hla. exact Hla.
+    + intros _. pose proof (agree_usable g h AG (idx w) Hu) as Ha. rewrite addr_idx in Ha. exact Ha.
   - destruct (gusable g (idx w)) eqn:Hu; [|discriminate]. inversion Hstep; subst g'.
     pose proof (agree_usable_live g h AG (idx w) Hu) as Hl. rewrite addr_idx in Hl.
     split; [exact Hl|]. intros h' S. eapply agree_stable; eauto.
